@@ -13,6 +13,7 @@ derivative `den2 d n w` per PAIR of names; `×` is the product rule with the sym
 every (half) second derivative by pair of names.
 -/
 import RateslibModel.Proofs.Dual2Layout
+import RateslibModel.Proofs.NewFrom
 namespace Rateslib
 open Dual
 
@@ -148,6 +149,42 @@ theorem C03_eq_dual2 [Transc α] [LawfulEqb α] (p : Bool) (a b : Dual2 α) (ha 
   Dual2.eq_spec p a b ha hb hp
 
 end Second
+
+/-! `new_from` / `try_new_from`: a number constructed on ANOTHER number's variable list is the freshly
+constructed number projected BY NAME onto that list — exactly the other's list, each derivative kept for a
+name the list has and dropped for one it has not, whatever the two orders. -/
+section NewFrom
+variable [Div α]
+
+theorem C03_new_from (ov : List String) (hov : ov.Nodup) (real : α) (vars : List String) :
+    (Dual.newFrom ov real vars).WF ∧ (Dual.newFrom ov real vars).vars = ov ∧
+    (Dual.newFrom ov real vars).real = real ∧
+    ∀ n, den (Dual.newFrom ov real vars) n = if n ∈ ov then den (Dual.new real vars) n else 0 :=
+  Dual.toNewVars_cmp (Dual.new real vars) ov (Dual.new_wf real vars) hov
+
+/-- the fallible form: an error exactly when `try_new` gives one, otherwise the projection by name -/
+theorem C03_try_new_from (ov : List String) (hov : ov.Nodup) (real : α) (vars : List String) (dual : List α) :
+    (Dual.tryNew real vars dual = none → Dual.tryNewFrom ov real vars dual = none) ∧
+    ∀ d, Dual.tryNew real vars dual = some d →
+      ∃ r, Dual.tryNewFrom ov real vars dual = some r ∧ r.WF ∧ r.vars = ov ∧ r.real = real ∧
+        ∀ n, den r n = if n ∈ ov then den d n else 0 := by
+  constructor
+  · intro h; simp only [Dual.tryNewFrom, h]
+  · intro d h
+    obtain ⟨hw, hr, _⟩ := Dual.tryNew_wf real vars dual d h
+    obtain ⟨h1, h2, h3, h4⟩ := Dual.toNewVars_cmp d ov hw hov
+    exact ⟨_, by simp only [Dual.tryNewFrom, h], h1, h2, by rw [h3, hr], h4⟩
+
+theorem C03_new_from_dual2 (ov : List String) (hov : ov.Nodup) (real : α) (vars : List String) :
+    (Dual2.newFrom ov real vars).WF ∧ (Dual2.newFrom ov real vars).vars = ov ∧
+    (Dual2.newFrom ov real vars).real = real ∧
+    (∀ n, Dual2.den (Dual2.newFrom ov real vars) n =
+      if n ∈ ov then Dual2.den (Dual2.new real vars) n else 0) ∧
+    ∀ n w, Dual2.den2 (Dual2.newFrom ov real vars) n w =
+      if n ∈ ov ∧ w ∈ ov then Dual2.den2 (Dual2.new real vars) n w else 0 :=
+  Dual2.toNewVars_cmp (Dual2.new real vars) ov (Dual2.new_wf real vars) hov
+
+end NewFrom
 
 /-! Non-vacuity: the hypotheses are met by concrete numbers with different layouts. -/
 example : (⟨2, ["x", "y"], [1, 3]⟩ : Dual ℤ).WF ∧ (⟨5, ["y", "z"], [4, 7]⟩ : Dual ℤ).WF := by
